@@ -9,6 +9,7 @@ import Echse.Lemmas.RuleExt1
 import Echse.Lemmas.RuleExt5
 import Echse.Lemmas.RuleExt7
 import Echse.Lemmas.RuleExt8
+import Echse.Lemmas.RuleExt15
 namespace C17
 open Echse.Rrule Echse.Spec.Cal Echse.Spec.RuleExt
 
@@ -59,13 +60,15 @@ theorem shift_days_one (y c : Nat) (n : Int) (hy : 1902 ≤ y ∧ y ≤ 2098) (h
     ∃ ny nm nd : Nat, 1 ≤ nm ∧ nm ≤ 12 ∧ 1 ≤ nd ∧ nd ≤ monthLen ny nm ∧
       days ny nm nd = candDay y c + n ∧
       shift { same := [c] } y (n * 65536) = Cand3.ass {} (bucket y ny) (packCand nm nd) := by
-  sorry
+  exact Echse.RuleExt.shift_days_one y c n hy hc hn
 
 /-- up to 365 days the result lies in the year the set stands for -/
 theorem shift_days_year (y c : Nat) (n : Int) (hy : 1902 ≤ y ∧ y ≤ 2098) (hc : ValidCand y c)
     (hn : n ≠ 0 ∧ -365 ≤ n ∧ n ≤ 365) (ny nm nd : Nat) (hv : 1 ≤ nm ∧ nm ≤ 12 ∧ 1 ≤ nd ∧ nd ≤ monthLen ny nm)
     (hd : days ny nm nd = candDay y c + n) : ny = bucketYear y (bucket y ny) := by
-  sorry
+  have r := Echse.RuleExt.shift_days_year y _ _ n hc.1 hc.2.1 hc.2.2.1 hc.2.2.2 (by omega) hn.2 ny nm nd hv hd
+  unfold bucketYear bucket
+  split <;> (try split) <;> (try simp) <;> omega
 
 /-- finding D64 (recorded): SHIFT=-366 from January 1st after a common year reaches the year before last, which is
 filed under "previous year" -/
